@@ -42,7 +42,7 @@
 #define MAX_FAULTS 64
 #define MAX_DIRS 64
 
-enum { A_FAIL = 1, A_SHORT, A_EINTR, A_TORN, A_KILL_BEFORE, A_KILL_AFTER, A_KILL_MID, A_SIG_BEFORE, A_SIG_AFTER };
+enum { A_FAIL = 1, A_SHORT, A_EINTR, A_TORN, A_KILL_BEFORE, A_KILL_AFTER, A_KILL_MID, A_SIG_BEFORE, A_SIG_AFTER, A_STALL };
 
 struct fault {
     long k;            /* exact op number, or 0 */
@@ -198,6 +198,7 @@ static int act_of(const char *s)
     if (!strcmp(s, "kill_mid")) return A_KILL_MID;
     if (!strcmp(s, "sig_before")) return A_SIG_BEFORE;
     if (!strcmp(s, "sig_after")) return A_SIG_AFTER;
+    if (!strcmp(s, "stall")) return A_STALL;
     return 0;
 }
 
@@ -405,7 +406,29 @@ static int world_at(int dirfd, const char *path, char *rel, size_t relsz)
         snprintf(abs, sizeof abs, "%s/%s", base, path);
     }
     char norm[PATH_MAX];
-    normalise(abs, norm, sizeof norm);
+    if (strstr(abs, "/..") && real_realpath) {
+        /* ".." after a symlinked directory: lexical folding would name another place than the kernel resolves, so the
+           directory part is resolved for real (the last component is kept as given: a symlink file stays the link) */
+        char dirpart[PATH_MAX * 2], resolved[PATH_MAX];
+        snprintf(dirpart, sizeof dirpart, "%s", abs);
+        char *slash = strrchr(dirpart, '/');
+        const char *last = "";
+        if (slash && slash != dirpart) {
+            *slash = 0;
+            last = slash + 1;
+        }
+        if (slash && slash != dirpart && strcmp(last, "..") != 0 && strcmp(last, ".") != 0 && real_realpath(dirpart, resolved)) {
+            char joined[PATH_MAX * 2];
+            snprintf(joined, sizeof joined, "%s/%s", resolved, last);
+            normalise(joined, norm, sizeof norm);
+        } else if (real_realpath(abs, resolved)) {
+            snprintf(norm, sizeof norm, "%s", resolved);
+        } else {
+            normalise(abs, norm, sizeof norm);
+        }
+    } else {
+        normalise(abs, norm, sizeof norm);
+    }
     if (strncmp(norm, sim_root, sim_root_len) != 0)
         return 0;
     if (norm[sim_root_len] == 0) {
@@ -475,6 +498,7 @@ static void op_begin(struct opctx *c, const char *kind, const char *path)
     char kk[40];
     snprintf(kk, sizeof kk, ",%s,", kind);
     int sig_before = 0, kill_before = 0;
+    long stall_ms = 0;
     for (int i = 0; i < nfaults; i++) {
         struct fault *f = &faults[i];
         int hit = 0;
@@ -506,6 +530,10 @@ static void op_begin(struct opctx *c, const char *kind, const char *path)
             c->kill_after = 1;
             fired_add(c, f);
             break;
+        case A_STALL:
+            stall_ms = (long)(f->frac * 1000.0);
+            fired_add(c, f);
+            break;
         default:
             if (!c->res) {
                 c->res = f;
@@ -521,6 +549,11 @@ static void op_begin(struct opctx *c, const char *kind, const char *path)
     if (kill_before) {
         tracef("%ld\t%s\t%s\t0\t0\t0\t0\t%s\n", c->k, kind, path, c->fired);
         die_now();
+    }
+    if (stall_ms > 0) {
+        /* a stalled operation (slow storage): the call simply takes this long; frac carries the seconds */
+        struct timespec ts = {stall_ms / 1000, (stall_ms % 1000) * 1000000L};
+        nanosleep(&ts, NULL);
     }
 }
 
